@@ -31,20 +31,30 @@ type Ctx struct {
 	mu    sync.Mutex // Fail/Observe/Count may be called from free-running goroutines (race pass)
 	Dir   string     // fresh scratch directory of this execution (removed afterwards)
 	Data  any        // scenario-private per-execution data (e.g. captured crash images)
-	class string
+	class string     // first failure (kept for compatibility: Failed, replay output)
 	fail  string
+	fails []failure // every failure of this execution, distinct classes, in order
 	obs   []string
 	cnt   map[string]int
 }
 
-// Fail records the first failure of this execution.
+type failure struct{ class, detail string }
+
+// Fail records a failure of this execution (one per distinct class; a class listed as a known
+// finding must not hide a different failure of the same execution).
 func (c *Ctx) Fail(class, format string, a ...any) {
 	c.mu.Lock()
 	defer c.mu.Unlock()
+	d := fmt.Sprintf(format, a...)
 	if c.fail == "" {
-		c.class = class
-		c.fail = fmt.Sprintf(format, a...)
+		c.class, c.fail = class, d
 	}
+	for _, f := range c.fails {
+		if f.class == class {
+			return
+		}
+	}
+	c.fails = append(c.fails, failure{class, d})
 }
 
 func (c *Ctx) Failed() bool {
@@ -201,21 +211,13 @@ func classify(c *Ctx, v vrt.Verdict) {
 	switch {
 	case v.Diverged != "":
 		c.class, c.fail = "harness:replay-divergence", v.Diverged
+		c.fails = []failure{{c.class, c.fail}}
 	case v.Panic != nil:
-		if c.fail == "" {
-			c.class = "panic:" + panicSite(v.PanicStk)
-			c.fail = fmt.Sprintf("panic in thread %s: %v @ %s", v.PanicThr, v.Panic, mc.TrimStack(v.PanicStk))
-		}
+		c.Fail("panic:"+panicSite(v.PanicStk), "panic in thread %s: %v @ %s", v.PanicThr, v.Panic, mc.TrimStack(v.PanicStk))
 	case v.Deadlock:
-		if c.fail == "" {
-			c.class = "deadlock:" + blockedSig(v.Blocked)
-			c.fail = fmt.Sprintf("deadlock: no enabled thread; blocked: %v", v.Blocked)
-		}
+		c.Fail("deadlock:"+blockedSig(v.Blocked), "deadlock: no enabled thread; blocked: %v", v.Blocked)
 	case v.Aborted:
-		if c.fail == "" {
-			c.class = "livelock:step-budget"
-			c.fail = fmt.Sprintf("step budget exhausted after %d scheduling steps (livelock / unbounded spinning)", v.Steps)
-		}
+		c.Fail("livelock:step-budget", "step budget exhausted after %d scheduling steps (livelock / unbounded spinning)", v.Steps)
 	}
 }
 
@@ -349,12 +351,20 @@ func worker(prop string, scenarios []Scenario) {
 			lastEmit = time.Now()
 			emit(msg{T: "progress", Execs: execs, Steps: steps, Outcomes: outcomes, Traces: len(traces), Counters: counters})
 		}
-		if c.fail != "" && knownCls[classPrefix(s)+":"+c.class] {
-			if !reportedKnown[c.class] {
-				reportedKnown[c.class] = true
-				emit(msg{T: "violation", Class: c.class, Detail: c.fail, Prefix: prefix, Repro: 1})
+		// known-finding classes are reported once and do not end the shard; the first failure of a class
+		// that is not listed is the violation of this execution
+		c.class, c.fail = "", ""
+		for _, f := range c.fails {
+			if knownCls[classPrefix(s)+":"+f.class] {
+				if !reportedKnown[f.class] {
+					reportedKnown[f.class] = true
+					emit(msg{T: "violation", Class: f.class, Detail: f.detail, Prefix: prefix, Repro: 1})
+				}
+				continue
 			}
-			return true
+			if c.fail == "" {
+				c.class, c.fail = f.class, f.detail
+			}
 		}
 		if c.fail != "" {
 			violated = true
@@ -366,8 +376,11 @@ func worker(prop string, scenarios []Scenario) {
 			repro := 0
 			for k := 0; k < 5; k++ {
 				c2, _, _ := runOne(s, prefix, nil)
-				if c2.fail != "" && c2.class == c.class {
-					repro++
+				for _, f := range c2.fails {
+					if f.class == c.class {
+						repro++
+						break
+					}
 				}
 			}
 			if repro == 5 {
